@@ -38,79 +38,18 @@ Fixpoint parse_wrows (l : list value) : option (bool * list wobs) :=
 
 Definition run_wire (seq : bool) (o : list value) : option (bool * bool) :=
   match o with
-  | [VL rowsv; VZ strict; VZ tol] =>
+  | VL rowsv :: VZ strict :: VZ tol :: rest =>
       match parse_wrows rowsv with
       | Some (all_got, rows) =>
-          Some (all_got && C06_wire_agree seq (Z.to_nat tol) rows,
-                C06_lsn_ok (map w_obs rows) && C06_wire_ok (strict =? 1) rows)
+          let '(kg, ko) := match rest with
+                           | [VL obs; VL exp] => run_lsn_keys obs exp     (* the store after the history *)
+                           | _ => (true, true)
+                           end in
+          Some (all_got && C06_wire_agree seq (Z.to_nat tol) rows && kg,
+                C06_lsn_ok (map w_obs rows) && C06_wire_ok (strict =? 1) rows && ko)
       | None => None
       end
   | _ => None
-  end.
-
-(* ---- operations on the store at its real capacity, each with the client's item as it was in
-   the real store before and after (kind tss.full, and the probes of tss.flood) ----
-   handle: [0 cid org rx tx rxt now pre rorg rrx rtx rref rxt' txt' post]
-   report: [1 cid rxt txt pre txt' post]
-   An operation only reads and writes the item of its own client (and, for a client without an
-   item, the admission decision, which is C07's): the model is run on the store that holds just
-   that item. *)
-Definition mini_state (cid : Z) (pre : option oitem) : tss :=
-  match pre with
-  | Some it =>
-      {| items := [{| it_key := cid; it_ents := map (fun p => {| e_rx := fst p; e_tx := snd p |}) (oi_ents it);
-                      it_qval := oi_qval it |}];
-         hq := [(cid, oi_qval it)] |}
-  | None => tss_empty
-  end.
-
-Definition post_agrees (m : option (Z * list (Z * Z))) (post : option oitem) : bool :=
-  let '(ge, gq) := items_agree m post in ge && gq.
-
-Definition full_step (v : value) : option (bool * bool) :=
-  match v with
-  | VL [VZ 0; VZ cid; VZ org; VZ rx; VZ tx; VZ rxt; VZ now; prev; VZ rorg; VZ rrx; VZ rtx; VZ rref; VZ rxt'; VZ txt'; postv] =>
-      match parse_item prev, parse_item postv with
-      | Some pre, Some post =>
-          let q := {| q_org := org; q_rx := rx; q_tx := tx |} in
-          let orc := C06_handle_full_ok (ents_of pre) q rxt now rorg rrx rtx rxt' txt' (option_map oi_ents post) && pairs_ordered (ents_of post)
-                     && pairs_ordered (ents_of pre) in
-          let agree :=
-            match handle real_config (mini_state cid pre) cid q rxt now 0 with
-            | Some out =>
-                let r := o_reply out in
-                (r_org r =? rorg) && (r_rx r =? rrx) && (r_tx r =? rtx) && (r_ref r =? rref) &&
-                (o_rxt out =? rxt') && (o_txt out =? txt') &&
-                match pre, post with
-                | Some _, _ => post_agrees (model_ents (o_state out) cid) post
-                | None, None => true                                   (* served without state *)
-                | None, Some _ => post_agrees (model_ents (o_state out) cid) post
-                end
-            | None => false
-            end in
-          Some (agree, orc)
-      | _, _ => None
-      end
-  | VL [VZ 1; VZ cid; VZ rxt; VZ txt; prev; VZ txt'; postv] =>
-      match parse_item prev, parse_item postv with
-      | Some pre, Some post =>
-          let orc := C06_update_ok (ents_of pre) (ents_of post) rxt txt' && pairs_ordered (ents_of post) && (rxt <? txt') in
-          let out := update_tx (mini_state cid pre) cid rxt txt in
-          let agree := (t_txt out =? txt') && post_agrees (model_ents (t_state out) cid) post in
-          Some (agree, orc)
-      | _, _ => None
-      end
-  | _ => None
-  end.
-
-Fixpoint full_steps (l : list value) : option (bool * bool) :=
-  match l with
-  | [] => Some (true, true)
-  | v :: r =>
-      match full_step v, full_steps r with
-      | Some (g, o), Some (ga, oa) => Some (g && ga, o && oa)
-      | _, _ => None
-      end
   end.
 
 (* ---- tss.flood for C06: last element of outs = [exst replies probes]
@@ -147,7 +86,7 @@ Definition run_flood_c06x (o : list value) : option (bool * bool) :=
   match o with
   | [a1; a2; a3; a4; a5; a6; a7; a8; a9; a10; VL [VL exst; VL reps; VL probes; VL _]] =>
       match run_flood_c06 [a1; a2; a3; a4; a5; a6; a7; a8; a9; a10; VL exst], flood_replies reps, full_steps probes with
-      | Some b, Some (g1, o1), Some (g2, o2) => Some (b && g1 && g2, b && o1 && o2)
+      | Some b, Some (g1, o1), Some (g2, o2, _) => Some (b && g1 && g2, b && o1 && o2)
       | _, _, _ => None
       end
   | _ => None
@@ -155,7 +94,10 @@ Definition run_flood_c06x (o : list value) : option (bool * bool) :=
 
 Definition glue_C06 (k : string) (a o : list value) : option verdict :=
   if is k "tss.hist" then
-    let ac := run_hist a o in
+    let ac := run_hist false a o in
+    Some (relational (a_agree06 ac && negb (a_bad ac)) (a_oracle06 ac))
+  else if is k "tss.era" then   (* histories across the NTP era rollover *)
+    let ac := run_hist true a o in
     Some (relational (a_agree06 ac && negb (a_bad ac)) (a_oracle06 ac))
   else if is k "tss.flood" then
     match run_flood_c06x o with
@@ -165,7 +107,7 @@ Definition glue_C06 (k : string) (a o : list value) : option verdict :=
   else if is k "tss.full" then
     match o with
     | [VL recs] => match full_steps recs with
-                   | Some (g, orc) => Some (relational g orc)
+                   | Some (g, orc, _) => Some (relational g orc)
                    | None => Some (relational false true)
                    end
     | _ => Some (relational false true)
@@ -179,6 +121,21 @@ Definition glue_C06 (k : string) (a o : list value) : option verdict :=
     match run_wire false o with
     | Some (g, orc) => Some (relational g orc)
     | None => Some (relational false true)
+    end
+  else if is k "lsn.race" then
+    (* the listeners serving many clients at once under the race detector: every client's history on its own *)
+    match o with
+    | [VZ status; VZ race; VL clients] =>
+        let rs := map (fun c => match c with VL l => run_wire true l | _ => None end) clients in
+        let g := forallb (fun r => match r with Some (g, _) => g | None => false end) rs in
+        let orc := forallb (fun r => match r with Some (_, orc) => orc | None => true end) rs in
+        Some (relational ((status =? 0) && (race =? 0) && g && negb (Nat.eqb (length clients) 0)) ((race =? 0) && orc))
+    | _ => Some (relational false true)
+    end
+  else if is k "tss.conc" then
+    match o with
+    | [VL clients; VL counts] => let ok := run_conc clients counts in Some (relational ok ok)
+    | _ => Some (relational false true)
     end
   else if is k "tss.lockdiscipline" then Some (relational true true)   (* C07's case kind *)
   else None.
